@@ -1,4 +1,5 @@
 import AbraModel.Assign
+import AbraProofs.Lemmas.Names
 /-!
 # C20 — immutable bindings cannot be assigned; assignment never crashes
 
@@ -129,11 +130,33 @@ theorem C20_pat_mutability (isMutable : Bool) (p : Pat) :
     recordPat isMutable p = (binders p).map (fun id => (id, isMutable)) :=
   recordPat_eq isMutable p
 
+/-! ### which declaration the target means: the innermost visible one (Names model) -/
+
+open Abra.Names in
+/-- every statement form except `let` leaves the symbol table as it found it: what a block, a loop
+    body, an if/else branch, a match arm or a lambda body declares ends with it -/
+theorem resolveStmt_table {ν : Type} [DecidableEq ν] (w : World ν) (kids : Table ν) (st : SymTab ν)
+    (s : Stmt ν) (h : ∀ x id, s ≠ .letv x id) : (resolveStmt w true kids st s).1 = st := by
+  cases s <;> simp [resolveStmt] at h ⊢
+
+open Abra.Names in
+/-- The assignment target `x` written AFTER a scope-opening construct (block, while/for body, if/else,
+    match, lambda) resolves exactly as it would without the construct: a same-named declaration
+    inside the construct — whatever its mutability — never decides the verdict of an assignment
+    outside of it. -/
+theorem C20_target_after_scope {ν : Type} [DecidableEq ν] (w : World ν) (kids : Table ν) (st : SymTab ν)
+    (s : Stmt ν) (h : ∀ y id, s ≠ .letv y id) (x : ν) :
+    (resolveStmts w true kids st [s, .use x]).2 =
+      (resolveStmt w true kids st s).2 ++ [Res.ofOption (lookup st x)] := by
+  simp only [resolveStmts, resolveStmt_table w kids st s h, resolveStmt, List.append_nil]
+
 /-! ### non-vacuity -/
 example : oldDecision (.name .letB true) .add ≠ .crash := by decide
 example : run [7, 10, 9] [] (assignCode .sub 1 3) = .ok [7, 7, 9] [] := by rfl
 example : run [7, 10, 9] [] (assignCode .div 1 0) = .err .divZero := by rfl
 example : (1 : Nat) < [7, 10, 9].length := by decide
+example : (∀ y id, (Abra.Names.Stmt.block [Abra.Names.Stmt.letv 5 2] : Abra.Names.Stmt Nat) ≠ .letv y id) := by
+  intro y id h; cases h
 example : recordPat false (.tuple [.variant [.bind 1, .wild], .or (.bind 2) (.bind 2), .struct [.bind 3]]) =
     [(1, false), (2, false), (2, false), (3, false)] := by decide
 
